@@ -40,7 +40,7 @@ def union_case(draw, tier):
     case = g.case
     t = g.t(var)
     if kind == "leak":
-        uv = g.v_union(var)
+        uv = g.v_union(var, follow=False)
         if uv is None:
             case["result"] = var
             case["_gen"] = {"classes": sorted(g.classes)}
